@@ -18,6 +18,8 @@ func init() {
 		},
 		Run: runC16,
 		Controls: []Control{
+			{Name: "refactor-mp-reach-without-budget-variable", Silent: true, File: "protocols/bgp/packet/mp_reach_nlri.go", Old: "\tbudget -= int(nextHopLength)\n\n\tif budget == 0 {\n\t\treturn n, nil\n\t}\n", New: "\tif variableLength == int(nextHopLength) {\n\t\treturn n, nil\n\t}\n"},
+			{Name: "mp-reach-reserved-octet-not-accounted", File: "protocols/bgp/packet/mp_reach_nlri.go", Old: "\tif budget == 0 {\n\t\treturn n, nil\n\t}\n", New: "\tif budget < 0 {\n\t\treturn n, nil\n\t}\n", Expect: "no-panic"},
 			{Name: "label-read-may-be-short", File: "protocols/bgp/packet/label.go", Old: "\tlabel := make([]byte, BytesPerLabel)\n\t_, err := buf.Read(label)\n\tif err != nil {\n\t\treturn LabelStackEntry(0), fmt.Errorf(\"read failed: %w\", err)\n\t}\n", New: "\tlabel := buf.Next(BytesPerLabel)\n\tif len(label) == 0 {\n\t\treturn LabelStackEntry(0), fmt.Errorf(\"read failed\")\n\t}\n", Expect: "no-panic"},
 			{Name: "mp-reach-guard-on-wrong-length", File: "protocols/bgp/packet/mp_reach_nlri.go", Old: "\tif budget < int(nextHopLength) {", New: "\tif budget < int(nextHopLength)/2 {", Expect: "no-panic"},
 			{Name: "community-count-32bit", File: "protocols/bgp/packet/path_attributes.go", Old: "\tu := make([]byte, pa.Length)\n", New: "\tu := make([]byte, int(pa.Length)<<16)\n", Expect: "bounded-allocation"},
